@@ -11,3 +11,4 @@ pub mod linecol;
 pub mod pratt;
 pub mod tt;
 pub mod jsonc;
+pub mod reader;
